@@ -1,21 +1,180 @@
 import Utv.Model.Rule
+import Utv.Model.C02Decl
+import Utv.Model.C03Copy
 import Utv.Util.PyJson
-open Lean Utv Utv.J Utv.Py Utv.PyJson Utv.Rule
-
-/-- `validate_constraints` normalisation that matters for which validators run (rule.py:757-821):
-const alone, else enum alone, else drop a false `unique_items`. -/
-def normalise (cs : List (String × PyVal)) : List (String × PyVal) :=
-  match cs.find? (fun c => baseKey c.1 == "const") with
-  | some c => [c]
-  | none => match cs.find? (fun c => baseKey c.1 == "enum") with
-    | some c => [c]
-    | none => cs.filter fun c => !(baseKey c.1 == "unique_items" && !Py.truthy c.2)
+open Lean Utv Utv.J Utv.Py Utv.PyJson Utv.Rule Utv.C02D
 
 def boolJ (r : M Bool) : Json :=
   match r with
   | .ok b => Json.mkObj [("ok", Json.bool b)]
   | .error (.unmodelled w) => Json.mkObj [("unmodelled", Json.str w)]
   | .error e => Json.mkObj [("err", Json.str (excName e))]
+
+/-! ### op "decl": a declared type (class statements / annotate / Field) given as its MRO of class bodies -/
+
+/-- element / contains type descriptor: an origin class and strict constraints -/
+structure TDesc where
+  origin : Cls
+  cs : List (String × PyVal)
+
+def decodeTDesc (j : Json) : TDesc :=
+  { origin := clsOfName (str! (fld j "origin")),
+    cs := (arr! (fld j "cs")).map fun p => match arr! p with
+      | [n, b] => (str! n, decode b) | _ => ("", PyVal.none) }
+
+def decodeAttr (j : Json) : Attr :=
+  match j with
+  | .str _ => .cancel
+  | _ => .val (decode (fld j "v")) (bool! (fld j "lax"))
+
+def decodeMro (j : Json) : List Body :=
+  (arr! j).map fun body => (arr! body).map fun p => match arr! p with
+    | [k, a] => (str! k, decodeAttr a) | _ => ("", Attr.cancel)
+
+/-- the item is of the descriptor's exact origin type and passes its constraints -/
+def accT (P : Prims) (t : TDesc) (x : PyVal) : Bool :=
+  typeOf x == t.origin && (match validate P (ordered (normalise t.cs)) x with | .ok _ => true | .error _ => false)
+
+def tdescAt (types : List TDesc) (v : PyVal) : Option TDesc :=
+  match v with
+  | .opaque n => types[n]?
+  | _ => none
+
+def itemsOf (v : PyVal) : List PyVal := match v with | .seq _ xs => xs | _ => []
+
+/-- the hooks the harness can declare (data, not code) -/
+def hookOf (name : String) : PyVal → M PyVal :=
+  match name with
+  | "even" => fun v => match v with
+    | .int i => if i % 2 == 0 then pure v else throw .valueError
+    | _ => throw (.unmodelled "hook operand")
+  | "nonempty" => fun v => match v with
+    | .seq _ xs => if xs.isEmpty then throw .valueError else pure v
+    | .str s => if s.isEmpty then throw .valueError else pure v
+    | _ => throw (.unmodelled "hook operand")
+  | "short" => fun v => match v with
+    | .seq _ xs => if xs.length > 2 then throw .valueError else pure v
+    | .str s => if s.length > 2 then throw .valueError else pure v
+    | _ => throw (.unmodelled "hook operand")
+  | _ => fun _ => throw (.unmodelled "unknown hook")
+
+def handleDecl (P : Prims) (j : Json) : Json :=
+  let mro := decodeMro (fld j "mro")
+  let types := (arr! (fld j "types")).map decodeTDesc
+  let v := decode (fld j "value")
+  let origin := clsOfName (str! (fld j "origin"))
+  let validators := compile mro
+  let vJ := Json.arr (validators.map fun (n, b) => Json.arr #[Json.str n, encode b]).toArray
+  -- contains acceptor
+  let contT := match lookup mro "contains" with
+    | some (.val c _) => tdescAt types c
+    | _ => none
+  let acc : PyVal → Bool := match contT with | some t => accT P t | none => fun _ => false
+  -- args
+  let argTs : List TDesc := match lookup mro "__args__" with
+    | some (.val (.seq _ xs) _) => xs.filterMap (tdescAt types)
+    | _ => []
+  let ellipsis := match lookup mro "__ellipsis_args__" with
+    | some (.val b _) => Py.truthy b
+    | _ => false
+  let isTuple := origin == Cls.tuple
+  let itemParse : TDesc → PyVal → M PyVal := fun t x => validate P (ordered (normalise t.cs)) x
+  let args : Option (PyVal → M PyVal) :=
+    match argTs with
+    | [] => none
+    | t :: rest =>
+      if isTuple && !ellipsis then
+        some fun v => match v with
+          | .seq k xs =>
+            if xs.length != (t :: rest).length then throw (.unmodelled "tuple length differs from prefix items")
+            else do
+              let ys ← (List.zip (t :: rest) xs).mapM (fun (ti, x) => itemParse ti x)
+              pure (.seq k ys)
+          | _ => throw (.unmodelled "args on non-sequence")
+      else
+        some fun v => match v with
+          | .seq k xs => do
+            let ys ← xs.mapM (itemParse t)
+            pure (.seq k ys)
+          | _ => throw (.unmodelled "args on non-sequence")
+  let post : PyVal → M PyVal := match lookup mro "post_validate" with
+    | some (.val (.str h) _) => hookOf h
+    | _ => pure
+  -- fragment: every item that meets an element type must be of that type's exact origin class
+  let inexact :=
+    (match contT with | some t => (itemsOf v).any (fun x => typeOf x != t.origin) | none => false) ||
+    (match argTs with
+      | [] => false
+      | [t] => (itemsOf v).any (fun x => typeOf x != t.origin)
+      | ts => (List.zip ts (itemsOf v)).any (fun (t, x) => typeOf x != t.origin))
+  if inexact then Json.mkObj [("validators", vJ), ("unmodelled", Json.str "item of another type (conversion)")] else
+  let d := declOf mro args acc post
+  let originOk : PyVal → Bool := fun x => Py.isinstance x origin
+  let r := parseTyped P d v
+  let inst := instancecheck originOk (parseTyped P d) v
+  match r with
+  | .error (.unmodelled w) => Json.mkObj [("validators", vJ), ("unmodelled", Json.str w)]
+  | _ => Json.mkObj [("validators", vJ), ("parse", encodeOutcome r), ("isinstance", Json.bool inst)]
+
+/-! ### op "copy" (C03): the reference `copy_value` (proved to satisfy the equation generated from the source) -/
+
+instance : Inhabited Utv.C03C.CVal := ⟨.atom 0⟩
+
+open Utv.C03C in
+partial def decodeC (j : Json) : StateM (Array Json) CVal := do
+  let seqOf (k : CCls) (x : Json) : StateM (Array Json) CVal := do
+    let xs ← (arr! x).mapM decodeC
+    pure (.seq k xs)
+  match obj? j "l" with
+  | some x => seqOf .list x
+  | none =>
+  match obj? j "t" with
+  | some x => seqOf .tuple x
+  | none =>
+  match obj? j "S" with
+  | some x => seqOf .set x
+  | none =>
+  match obj? j "F" with
+  | some x => seqOf .frozenset x
+  | none =>
+  match obj? j "V" with
+  | some x => seqOf .dictValues x
+  | none =>
+  match obj? j "K" with
+  | some x => seqOf .dictKeys x
+  | none =>
+  match obj? j "m" with
+  | some x => do
+    let pairs := (arr! x).map fun p => match arr! p with | [k, v] => (k, v) | _ => (Json.null, Json.null)
+    let ks ← pairs.mapM (fun p => decodeC p.1)
+    let vs ← pairs.mapM (fun p => decodeC p.2)
+    pure (.dict ks vs)
+  | none => do
+    let tbl ← get
+    match tbl.findIdx? (· == j) with
+    | some i => pure (.atom i)
+    | none =>
+      set (tbl.push j)
+      pure (.atom tbl.size)
+
+open Utv.C03C in
+partial def encodeC (tbl : Array Json) : CVal → Json
+  | .atom n => tbl[n]?.getD Json.null
+  | .seq k xs =>
+    let tag := match k with
+      | .list => "l" | .tuple => "t" | .set => "S" | .frozenset => "F" | .dictValues => "V" | .dictKeys => "K" | _ => "l"
+    Json.mkObj [(tag, Json.arr (xs.map (encodeC tbl)).toArray)]
+  | .dict ks vs =>
+    Json.mkObj [("m", Json.arr ((List.zip ks vs).map fun (k, v) => Json.arr #[encodeC tbl k, encodeC tbl v]).toArray)]
+
+open Utv.C03C in
+def handleCopy (j : Json) : Json :=
+  let (v, tbl) := (decodeC (fld j "value")).run #[]
+  let W : World := { pyEq := fun a b => a == b }
+  match copyRef W v with
+  | .ok r => Json.mkObj [("ok", encodeC tbl r)]
+  | .error .typeError => Json.mkObj [("err", Json.str "TypeError")]
+  | .error (.unmodelled w) => Json.mkObj [("unmodelled", Json.str w)]
 
 def handle (j : Json) : Json :=
   let P := decodePrims (fld j "prims")
@@ -28,6 +187,9 @@ def handle (j : Json) : Json :=
     let cs := (arr! (fld j "constraints")).map fun p => match arr! p with
       | [n, b] => (str! n, decode b) | _ => ("", PyVal.none)
     encodeOutcome (validate P (ordered (normalise cs)) (decode (fld j "value")))
+  | "decl" => handleDecl P j
+  | "copy" => handleCopy j
+  | "skip" => Json.mkObj [("unmodelled", Json.str "skip")]
   | "cmp" =>
     let a := decode (fld j "a"); let b := decode (fld j "b")
     Json.mkObj [("lt", boolJ (Py.lt a b)), ("le", boolJ (Py.le a b)), ("eq", Json.bool (Py.eq a b)),
